@@ -327,8 +327,16 @@ def generate(tier, seed):
                      {"kind": "Implies", "cond": CONDS[(ia + ib) % 3], "args": [A, B] if (ia + ib) % 2 else [A]},
                      {"kind": "IfThenElse", "cond": CONDS[(ia + ib) % 2], "then": [A], "else": [B]},
                      {"kind": "IfThenElse", "cond": CONDS[(ia + ib + 1) % 2], "then": [A, B], "else": [B, pool[(ia + 1) % len(pool)]]}]
-            for f in forms:
-                cases.append({"cid": f"tt-{otag}-{f['kind']}-{ia}-{ib}", "family": f"truthtable:{f['kind']}",
+            Cx = pool[(ia + 2) % len(pool)]
+            forms += [{"kind": "Or", "args": [A, {"kind": "Or", "args": [B, Cx]}]},
+                      {"kind": "And", "args": [{"kind": "And", "args": [A, B]}, Cx]},
+                      {"kind": "Or", "args": [A, {"kind": "Not", "arg": B}, Cx]},
+                      {"kind": "Not", "arg": {"kind": "Not", "arg": A}},
+                      {"kind": "Or", "args": [A, {"kind": "Implies", "cond": CONDS[ia % 2], "args": [B]}]}]
+            for fi2, f in enumerate(forms):
+                if fi2 >= 6 and tier == "quick" and (ia + ib + fi2) % 3:
+                    continue
+                cases.append({"cid": f"tt-{otag}-{f['kind']}-{ia}-{ib}-{fi2}", "family": f"truthtable:{f['kind']}",
                               "kind": "tt", "spec": spec, "formula": copy.deepcopy(f), "limit": lim, "rng": seed})
         for ia, A in enumerate(pool):
             cases.append({"cid": f"tt-{otag}-Not-{ia}", "family": "truthtable:Not", "kind": "tt", "spec": spec,
